@@ -554,6 +554,29 @@ impl U {
         }
     }
 
+    /// A legal administrative step in the middle of a history: the contract at `addr` is upgraded
+    /// (to the same, natively running code) and migrated with unit data, everything authorised.
+    /// Whatever the contract stores must read as before afterwards.
+    pub fn upgrade_and_migrate(&mut self, addr: &Address) -> Result<(), String> {
+        let a = addr.clone();
+        let r = self.setup(move |env| {
+            let mut v: soroban_sdk::Vec<Val> = soroban_sdk::Vec::new(env);
+            v.push_back(native_hash(env).to_val());
+            match env.try_invoke_contract::<Val, soroban_sdk::Error>(&a, &soroban_sdk::Symbol::new(env, "upgrade"), v) {
+                Ok(Ok(_)) => {}
+                other => return Err(format!("upgrade: {:?}", other)),
+            }
+            let mut v: soroban_sdk::Vec<Val> = soroban_sdk::Vec::new(env);
+            v.push_back(Val::VOID.to_val());
+            match env.try_invoke_contract::<Val, soroban_sdk::Error>(&a, &soroban_sdk::Symbol::new(env, "migrate"), v) {
+                Ok(Ok(_)) => Ok(()),
+                other => Err(format!("migrate: {:?}", other)),
+            }
+        });
+        self.skip_events();
+        r
+    }
+
     /// Harness set-up traffic (not verdict-bearing): everything is authorised.
     pub fn setup<T>(&mut self, f: impl FnOnce(&Env) -> T) -> T {
         self.env.mock_all_auths_allowing_non_root_auth();
